@@ -434,6 +434,21 @@ func SubmitCollect(r *Run, fam string, kind byte, n int, col *Collector) {
 // ReproduceWithHistory replays the requests the original executor had run before the
 // candidate's request, then the request itself, in one fresh executor.
 func ReproduceWithHistory(c Candidate) (bool, string) {
+	// State kept between calls may sit in places whose content also depends on the garbage
+	// collector and the scheduler (sync.Pool, per-P caches): the replay is tried a few times,
+	// every other time on a single P.  A candidate that never shows again stays unreproduced.
+	ok, why := false, ""
+	for t := 0; t < 6 && !ok; t++ {
+		env := []string(nil)
+		if t%2 == 1 {
+			env = []string{"GOMAXPROCS=1"}
+		}
+		ok, why = reproduceWithHistoryOnce(c, env)
+	}
+	return ok, why
+}
+
+func reproduceWithHistoryOnce(c Candidate, env []string) (bool, string) {
 	var req string
 	wantEvents := ""
 	if err := json.Unmarshal(c.Case, &req); err != nil {
@@ -447,7 +462,9 @@ func ReproduceWithHistory(c Candidate) (bool, string) {
 		req, wantEvents = tr.Req, tr.Events
 	}
 	var last *Result
+	PoolBinary, PoolEnv = c.Binary, append(append([]string(nil), c.Env...), env...)
 	p := NewPool(c.Family, 1, func(res Result) { r := res; last = &r })
+	PoolBinary, PoolEnv = "", nil
 	p.Timeout = 120 * time.Second
 	for _, h := range c.Hist {
 		p.Submit(h)
